@@ -72,6 +72,8 @@ def run_property(pid, tier='quick', seed=0, out=sys.stdout):
         H.out_of_subset.append(('extract', str(e)))
     except Exception:
         faults.append('VC generation crashed:\n' + traceback.format_exc()[-1500:])
+    for v in H.vacuous:
+        faults.append(f'run produced no obligations (vacuous): {v}')
     # covers: one per (function, label) group -- the path condition must be satisfiable
     covers = []
     seen = set()
